@@ -415,6 +415,42 @@ def lossless_iter_rule(rep, prog, cfg):
     for rn, ad, where in hits:
         rep.fail(rule, "%s/%s:%s" % (cfg, rn, ad), where,
                  "the reply decoder %s applies `%s` to the stream of fields/values: elements the server sent would be dropped, merged or reordered before they reach the decoded value" % (rn, ad))
+    # logging must not consume: the arguments of a tracing macro are evaluated only when that level is enabled, so a consuming
+    # accessor in there (Frame::get removes the field, take_binary the blob, next() an item) changes the decoded value depending
+    # on the log level
+    CONSUMING = ("mpd_protocol::response::frame::Frame::get", "mpd_protocol::response::frame::Frame::take_binary",
+                 "mpd_protocol::response::frame::IntoIter::take_binary", "core::iter::traits::iterator::Iterator::next",
+                 "core::option::Option::take", "alloc::vec::Vec::pop", "alloc::vec::Vec::remove", "core::mem::take", "core::mem::replace")
+    n_log = 0
+    for b in prog.bodies.values():
+        if b.crate != "mpd_client" or b.raw.get("derived"):
+            continue
+        raw = prog.crates[b.crate]
+        # extents of the logging macro invocations this body contains
+        ranges = set()
+        spans = [blk.get("ts") for blk in b.blocks] + [st.get("span") for blk in b.blocks for st in blk["s"]]
+        for sp in spans:
+            if sp and sp[3] >= 0:
+                for e in raw["exps"][sp[3]]:
+                    if e.get("crate") == "tracing" and str(e.get("m", "")).startswith("Bang:") and e.get("ext"):
+                        ranges.add((e["cs"][0],) + tuple(e["ext"]))
+        if not ranges:
+            continue
+        for bb, t in b.calls():
+            sp = b.blocks[bb].get("ts")
+            if not sp or sp[3] >= 0:
+                continue   # code the macro itself generated
+            inside = any(f == sp[0] and (l0, c0) <= (sp[1], sp[2] - 1) <= (l1, c1) for f, l0, c0, l1, c1 in ranges)
+            if not inside:
+                continue
+            n_log += 1
+            ns = callee_names(t)
+            if any(n in CONSUMING for n in ns):
+                root = norm(prog.bodies.get(b.root, b).name)
+                rep.fail(rule, "%s/%s consumes inside a log statement: %s" % (cfg, root, ns[0].rsplit("::", 1)[-1]), b.loc(sp),
+                         "%s calls %s inside the arguments of a logging macro: the value is consumed only when that log level is enabled, so the "
+                         "decoded result depends on the logging configuration" % (root, ns[0]))
+    rep.count("calls_inside_log_statements_" + cfg, n_log)
     rep.check(not hits, rule, cfg + "/no dropping adapter in reply decoders", "responses/", "see above", detail={"bodies_in_scope": scope})
     rep.floor(rule, cfg + "/decoder bodies in scope", scope, 60, "responses/")
 
